@@ -864,6 +864,18 @@ def compile_comprehension(compiler, expr, root, parts, final):
     }[root]
     is_for = root == "for"
 
+    # As in Python, the iterable of the first clause of a comprehension
+    # is evaluated in the enclosing scope, so compile it there: a name in
+    # it never refers to an iteration variable of the comprehension.
+    first_iterable = None
+    if (
+        not is_for
+        and parts
+        and parts[0].tag in ("for", "afor")
+        and (root != "dfor" or final or len(parts) > 1)
+    ):
+        first_iterable = compiler.compile(parts[0].value[1])
+
     ctx = nullcontext() if is_for else compiler.scope.create(ScopeGen)
     mac_con = nullcontext() if is_for else compiler.local_state()
     with mac_con, ctx as scope:
@@ -896,13 +908,15 @@ def compile_comprehension(compiler, expr, root, parts, final):
                 .value
             )
         new_parts = []
-        for p in parts:
+        for i, p in enumerate(parts):
             if p.tag in ("if", "do"):
                 tag_value = compiler.compile(p.value)
             else:
                 tag_value = [
                     compiler._storeize(p.value[0], compiler.compile(p.value[0])),
-                    compiler.compile(p.value[1]),
+                    first_iterable
+                    if i == 0 and first_iterable is not None
+                    else compiler.compile(p.value[1]),
                 ]
                 if not is_for:
                     scope.iterator(tag_value[0])
@@ -1061,6 +1075,17 @@ def compile_comprehension(compiler, expr, root, parts, final):
                     expr, test=asty.Constant(expr, value=False), body=if_body, orelse=[]
                 )
 
+            iter_arg = []
+            if first_iterable is not None:
+                # Evaluate the first iterable outside the new function
+                # and pass it in as an argument, the same way Python
+                # implements real comprehensions.
+                iter_var = mangle(compiler.get_anon_var())
+                iter_arg = [asty.arg(expr, arg=iter_var, annotation=None)]
+                ret += first_iterable
+                parts[0] = Tag(parts[0].tag, [
+                    parts[0].value[0],
+                    Result(expr=asty.Name(expr, id=iter_var, ctx=ast.Load()))])
             body = f(parts).stmts
               # `f` needs to be called before the next line so
               # `any_async` is set early enough.
@@ -1068,7 +1093,7 @@ def compile_comprehension(compiler, expr, root, parts, final):
                 expr,
                 name=fname,
                 args=ast.arguments(
-                    args=[],
+                    args=iter_arg,
                     vararg=None,
                     kwarg=None,
                     posonlyargs=[],
@@ -1091,8 +1116,7 @@ def compile_comprehension(compiler, expr, root, parts, final):
                 v1, v2 = f"{v1}: {v2}", f"{v1}, {v2}"
             else:
                 v1 = v2 = compiler.get_anon_var()
-            return ret + Result(expr =
-                asty.parse(expr,
+            call = (asty.parse(expr,
                     f"{fname}()"
                     if node_class is asty.GeneratorExp else
                     "{}{} {} for {} in {}(){}".format(
@@ -1103,6 +1127,11 @@ def compile_comprehension(compiler, expr, root, parts, final):
                         fname,
                         brackets[1]))
                 .body[0].value)
+            if first_iterable is not None:
+                for node in ast.walk(call):
+                    if isinstance(node, ast.Call):
+                        node.args = [first_iterable.force_expr]
+            return ret + Result(expr = call)
 
         # We can produce a real comprehension.
         generators = []
